@@ -2,6 +2,7 @@
    Specification `iso_reach` (Model/Iso.v): a relation between states that contains the pair of initial states, relates
    only reachable states, is preserved by every transition, preserves acceptance and is a partial bijection. *)
 From GT Require Import Base.Prelude Model.DFA Model.NFA Model.Iso Proofs.IsoProofs.
+From GT Require Proofs.IsoCorollaries.
 
 Theorem C20_iso_matrix_decides : forall (D1 D2 : dfa nat) (pick : picker (nat * nat)),
   dfa_wf D1 -> dfa_wf D2 -> seteq (dS D1) (dS D2) -> picker_ok pick ->
@@ -20,7 +21,64 @@ Theorem C20_iso_implies_equivalent : forall (D1 D2 : dfa nat), dfa_wf D1 -> dfa_
   forall w, Forall (fun a => In a (dS D1)) w -> (dfa_lang D1 w <-> dfa_lang D2 w).
 Proof. exact (fun D1 D2 => iso_reach_lang D1 D2). Qed.
 
+(* ---- the consequences named in the property text (Proofs/IsoCorollaries.v) ---- *)
+(* the answers are symmetric in the arguments, for any two choice orders *)
+Theorem C20_tests_symmetric : forall (D1 D2 : dfa nat) (pick1 pick2 : picker (nat * nat)),
+  dfa_wf D1 -> dfa_wf D2 -> seteq (dS D1) (dS D2) -> picker_ok pick1 -> picker_ok pick2 ->
+  (exists b, iso_matrix pick1 D1 D2 = Some b /\ iso_matrix pick2 D2 D1 = Some b) /\
+  (exists b, iso1 pick1 D1 D2 = Some b /\ iso1 pick2 D2 D1 = Some b).
+Proof.
+  intros D1 D2 pick1 pick2 H1 H2 Hs Hp1 Hp2. split.
+  - exact (IsoCorollaries.iso_matrix_symmetric D1 D2 H1 H2 Hs pick1 pick2 Hp1 Hp2).
+  - exact (IsoCorollaries.iso1_symmetric D1 D2 H1 H2 Hs pick1 pick2 Hp1 Hp2).
+Qed.
+
+(* True for any DFA against a renamed copy of itself (f injective on the states) *)
+Theorem C20_renamed_copy_true : forall (f : nat -> nat) (D : dfa nat) (pick : picker (nat * nat)),
+  dfa_wf D -> (forall p q, In p (dQ D) -> In q (dQ D) -> f p = f q -> p = q) -> picker_ok pick ->
+  dfa_wf (IsoCorollaries.dfa_rename f D) /\
+  iso_matrix pick D (IsoCorollaries.dfa_rename f D) = Some true /\ iso1 pick D (IsoCorollaries.dfa_rename f D) = Some true.
+Proof.
+  intros f D pick Hwf Hinj Hp. split; [|split].
+  - exact (IsoCorollaries.dfa_rename_wf f D Hwf Hinj).
+  - exact (IsoCorollaries.iso_matrix_rename_true f D Hwf Hinj pick Hp).
+  - exact (IsoCorollaries.iso1_rename_true f D Hwf Hinj pick Hp).
+Qed.
+
+(* False for DFAs with different languages *)
+Theorem C20_different_language_false : forall (D1 D2 : dfa nat) (pick : picker (nat * nat)) (w : word),
+  dfa_wf D1 -> dfa_wf D2 -> seteq (dS D1) (dS D2) -> picker_ok pick ->
+  Forall (fun a => In a (dS D1)) w -> ~ (dfa_lang D1 w <-> dfa_lang D2 w) ->
+  iso_matrix pick D1 D2 = Some false /\ iso1 pick D1 D2 = Some false.
+Proof.
+  intros D1 D2 pick w H1 H2 Hs Hp Hw Hd. split.
+  - exact (IsoCorollaries.iso_matrix_lang_false D1 D2 H1 H2 Hs pick Hp w Hw Hd).
+  - exact (IsoCorollaries.iso1_lang_false D1 D2 H1 H2 Hs pick Hp w Hw Hd).
+Qed.
+
+(* False for DFAs with different numbers of reachable states (l1, l2 = duplicate-free enumerations of the reachable states) *)
+Theorem C20_different_reachable_count_false : forall (D1 D2 : dfa nat) (pick : picker (nat * nat)) (l1 l2 : list nat),
+  dfa_wf D1 -> dfa_wf D2 -> seteq (dS D1) (dS D2) -> picker_ok pick ->
+  NoDup l1 -> NoDup l2 -> (forall q, In q l1 <-> dreach D1 q) -> (forall q, In q l2 <-> dreach D2 q) -> length l1 <> length l2 ->
+  iso_matrix pick D1 D2 = Some false /\ iso1 pick D1 D2 = Some false.
+Proof.
+  intros D1 D2 pick l1 l2 H1 H2 Hs Hp N1 N2 R1 R2 Hl. split.
+  - exact (IsoCorollaries.iso_matrix_count_false D1 D2 H1 H2 Hs pick Hp l1 l2 N1 N2 R1 R2 Hl).
+  - exact (IsoCorollaries.iso1_count_false D1 D2 H1 H2 Hs pick Hp l1 l2 N1 N2 R1 R2 Hl).
+Qed.
+
+(* the two tests agree with each other *)
+Theorem C20_tests_agree : forall (D1 D2 : dfa nat) (pick1 pick2 : picker (nat * nat)),
+  dfa_wf D1 -> dfa_wf D2 -> seteq (dS D1) (dS D2) -> picker_ok pick1 -> picker_ok pick2 ->
+  exists b, iso_matrix pick1 D1 D2 = Some b /\ iso1 pick2 D1 D2 = Some b.
+Proof. exact (fun D1 D2 pick1 pick2 H1 H2 Hs => IsoCorollaries.iso_matrix_iso1_agree D1 D2 H1 H2 Hs pick1 pick2). Qed.
+
 Print Assumptions C20_iso_matrix_decides.
 Print Assumptions C20_iso1_decides.
 Print Assumptions C20_iso_symmetric.
 Print Assumptions C20_iso_implies_equivalent.
+Print Assumptions C20_tests_symmetric.
+Print Assumptions C20_renamed_copy_true.
+Print Assumptions C20_different_language_false.
+Print Assumptions C20_different_reachable_count_false.
+Print Assumptions C20_tests_agree.
